@@ -3505,7 +3505,11 @@ int bufr_merge_dataset ( BUFR_Dataset *dest, int dest_pos, BUFR_Dataset *src,  i
 
    srccount = bufr_count_datasubset( src );
    destcount = bufr_count_datasubset( dest );
+/*
+ * no more than what the source holds from src_pos on
+ */
    if (nb > srccount) nb = srccount;
+   if ((src_pos > 0) && (nb > srccount - src_pos)) nb = srccount - src_pos;
    if (dest_pos >= destcount)
       {
       for (i = destcount; i <= dest_pos ; i++ )
